@@ -392,6 +392,53 @@ def extra_checks(repo, cls, fn, loop, zeros, report_ok, report_bad):
                   'cursor' % U(n))
 
 
+MERGE_FUNCS = {'np.union1d', 'np.concatenate', 'np.hstack', 'np.vstack',
+               'np.append', 'np.intersect1d', 'pd.concat'}
+
+
+def merge_accumulators(repo, cls, fn, loop, report_ok, report_bad):
+    """`v = merge(A, elem)` inside a loop, with v defined before the loop and
+    read after it, must merge into v itself: otherwise only the last
+    iteration survives."""
+    elems = _loop_elem_names(loop)
+    construct = '%s.%s' % (cls, fn.name) if cls else fn.name
+    for a in loop.body:
+        if not (isinstance(a, ast.Assign) and len(a.targets) == 1
+                and isinstance(a.targets[0], ast.Name)
+                and isinstance(a.value, ast.Call)
+                and U(a.value.func) in MERGE_FUNCS):
+            continue
+        v = a.targets[0].id
+        args = []
+        for x in a.value.args:
+            args += x.elts if isinstance(x, (ast.List, ast.Tuple)) else [x]
+        argnames = set()
+        for x in args:
+            argnames |= _names(x)
+        if not (argnames & elems):
+            continue
+        before = any(isinstance(s, ast.Assign) and any(
+            isinstance(t, ast.Name) and t.id == v for t in s.targets)
+            and s.lineno < loop.lineno for s in ast.walk(fn))
+        after = any(isinstance(n, ast.Name) and n.id == v and isinstance(
+            n.ctx, ast.Load) and n.lineno > loop.end_lineno
+            for n in ast.walk(fn))
+        if not (before and after):
+            continue
+        where = repo.loc(a, cls, fn.name)
+        if v in argnames:
+            report_ok(where, construct,
+                      '`%s` accumulates over the loop (`%s`)' % (
+                          v, norm_stmt(a)[:50]))
+        else:
+            report_bad(
+                where, construct, 'merge overwrites %s' % v,
+                '`%s` merges the loop element into `%s` instead of into the '
+                'running result `%s`: after the loop only the last element '
+                'is merged, the contributions of the other iterations are '
+                'lost' % (norm_stmt(a)[:70], U(args[0])[:30], v))
+
+
 def scoped(name, classes=None, files=None, floor=1):
     """R05.4 restricted to some classes / files (same rule, own floor)."""
     def rule(ctx, repo):
@@ -424,6 +471,7 @@ def r05_4(ctx, repo, classes=None, files=None, floor=24):
                 if zeros:
                     analyse_loop(repo, rel, cls, fn, loop, zeros, ok, bad)
                 extra_checks(repo, cls, fn, loop, zeros, ok, bad)
+                merge_accumulators(repo, cls, fn, loop, ok, bad)
                 if len(ctx.obligations) > before:
                     n_loops += 1
     if n_loops < floor:
